@@ -19,19 +19,19 @@ import (
 )
 
 type ClEntry struct {
-	Source  string            `json:"source"`
-	Version WellFormed        `json:"version"`
-	Dists   []string          `json:"dists"`
-	OptKeys []string          `json:"optKeys"`
+	Source  string     `json:"source"`
+	Version WellFormed `json:"version"`
+	Dists   []string   `json:"dists"`
+	OptKeys []string   `json:"optKeys"`
 	// OptStyle: how the options are laid out (0: "k=v, k=v"): 1 "k=v,k=v"; 2 "k=v,  k=v"; 3 "k=v , k=v";
 	// 4 a tab behind the comma; 5 "k= v" (dpkg reads the value with \s* in front); 6 blanks behind the last
-	OptStyle int `json:"optStyle,omitempty"`
-	Opts    map[string]string `json:"opts"`
-	Body    string            `json:"body"` // exact bytes between header line and trailer line
-	Who     string            `json:"who"`
-	Unix    int64             `json:"unix"`
-	OffMin  int               `json:"offMin"` // zone offset in minutes
-	Gap     int               `json:"gap"`    // blank lines before this entry's header
+	OptStyle int               `json:"optStyle,omitempty"`
+	Opts     map[string]string `json:"opts"`
+	Body     string            `json:"body"` // exact bytes between header line and trailer line
+	Who      string            `json:"who"`
+	Unix     int64             `json:"unix"`
+	OffMin   int               `json:"offMin"` // zone offset in minutes
+	Gap      int               `json:"gap"`    // blank lines before this entry's header
 	// GapLines, when set, replaces Gap: the blank lines before the header, each possibly carrying
 	// blanks or a tab (dpkg's notion of a blank line is ^\s*$)
 	GapLines []string `json:"gapLines,omitempty"`
